@@ -24,6 +24,8 @@ pub enum Ty {
     Enum(Vec<String>),
     /// fixed-length tuple `tup(T;T;…)`: deserialize_tuple (implementation-only ops; the Lean models do not parse it)
     Tuple(Vec<Ty>),
+    /// `()`: deserialize_unit (implementation-only ops)
+    Unit,
 }
 
 pub fn show_ty(t: &Ty) -> String {
@@ -36,6 +38,7 @@ pub fn show_ty(t: &Ty) -> String {
         Ty::Struct(fs) => format!("st({})", fs.iter().map(|(n, t)| format!("{}:{}", n, show_ty(t))).collect::<Vec<_>>().join(";")),
         Ty::Enum(vs) => format!("en({})", vs.join(";")),
         Ty::Tuple(ts) => format!("tup({})", ts.iter().map(show_ty).collect::<Vec<_>>().join(";")),
+        Ty::Unit => "unit".into(),
     }
 }
 
@@ -45,7 +48,7 @@ pub fn parse_ty(s: &str) -> Option<Ty> {
 }
 
 fn parse_ty_inner(s: &str) -> Option<(Ty, &str)> {
-    for (kw, t) in [("bool", Ty::Bool), ("i64", Ty::I64), ("u64", Ty::U64), ("i32", Ty::I32), ("u32", Ty::U32), ("f64", Ty::F64), ("f32", Ty::F32), ("str", Ty::Str), ("any", Ty::Any), ("ign", Ty::Ign), ("u16", Ty::U16), ("i16", Ty::I16), ("u8", Ty::U8), ("i8", Ty::I8)] {
+    for (kw, t) in [("bool", Ty::Bool), ("i64", Ty::I64), ("u64", Ty::U64), ("i32", Ty::I32), ("u32", Ty::U32), ("f64", Ty::F64), ("f32", Ty::F32), ("str", Ty::Str), ("any", Ty::Any), ("ign", Ty::Ign), ("u16", Ty::U16), ("i16", Ty::I16), ("u8", Ty::U8), ("i8", Ty::I8), ("unit", Ty::Unit)] {
         if let Some(r) = s.strip_prefix(kw) {
             if !r.starts_with(|c: char| c.is_ascii_alphanumeric() || c == '_' || c == '(') {
                 return Some((t, r));
@@ -125,6 +128,7 @@ impl<'de, 'a> DeserializeSeed<'de> for TySeed<'a> {
                 d.deserialize_enum("E", leak_fields(names), EnumVisitor(vs))
             }
             Ty::Tuple(ts) => d.deserialize_tuple(ts.len(), TupleVisitor(ts)),
+            Ty::Unit => <()>::deserialize(d).map(|_| "unit".to_string()),
         }
     }
 }
